@@ -76,6 +76,9 @@ func (o *Obligation) Script() string {
 		for _, a := range ex.axioms {
 			b.WriteString("(assert " + a.String() + ")\n")
 		}
+		for _, a := range ex.ctx.axioms {
+			b.WriteString("(assert " + a.String() + ")\n")
+		}
 	}
 	for _, a := range ex.ctx.StrAxioms() {
 		b.WriteString("(assert " + a.String() + ")\n")
